@@ -411,6 +411,32 @@ def swap_streams(ck: Check) -> None:
         except IndexError:
             return "OOB"
 
+    # ---- does the compiled kernel return at all?  (its inner loop is a `while`: a changed kernel can cycle for ever, and
+    # compiled code cannot be interrupted from Python.)  A sample of VALID pairs first runs in a forked child that
+    # announces each pair; if the child does not finish, the pair in flight is the failing input and the in-process
+    # streams below are not attempted.
+    from .common import run_in_child
+    canary = [(list(a), list(b)) for n in range(0, 5) for a in itertools.permutations(range(n))
+              for b in itertools.permutations(range(n))]
+    for n in (5, 6, 7, 9, 16, 33, 128, 200):
+        for _ in range(6):
+            a, b = list(range(n)), list(range(n))
+            rng.shuffle(a)
+            rng.shuffle(b)
+            canary.append((a, b))
+        canary.append((list(range(n)), list(range(1, n)) + [0]))     # one n-cycle
+
+    def _canary():
+        for a, b in canary:
+            ck.in_flight({"kind": "swap", "p1": a, "p2": b})
+            swap_distance(np.array(a, dtype=np.int64), np.array(b, dtype=np.int64))
+        return len(canary)
+    done, _ = run_in_child(_canary, 180 if quick else 600)
+    ck.count("swap_canary_pairs", len(canary))
+    if not done:
+        ck.spec(False, "swap_does_not_return", "swap_distance did not return on a pair of permutations (child process killed "
+                "after its time limit; the model's walk ends after at most n steps on every permutation)", ck.read_in_flight())
+        return
     # ---- malformed stream first: the implementation is only run where the model does not diverge, and
     # (unless numba checks bounds) as plain Python, so that a stray index raises instead of reading foreign memory
     mal = []
